@@ -26,7 +26,7 @@ pub struct Violation {
     pub detail: String,
 }
 
-pub const CHECK_IDS: [&str; 18] = ["E0", "E1", "E2", "E3", "A1", "D1", "D2", "D3", "D4", "D5", "D6", "B1", "M1", "S1", "S2", "S3", "S4", "U1"];
+pub const CHECK_IDS: [&str; 20] = ["E0", "E1", "E2", "E3", "A1", "D1", "D2", "D3", "D4", "D5", "D6", "B1", "M1", "S1", "S2", "S3", "S4", "U1", "D7", "S5"];
 
 fn check_no(id: &str) -> u64 {
     CHECK_IDS.iter().position(|c| *c == id).unwrap_or(99) as u64
@@ -423,6 +423,38 @@ fn serde_op(table: &[Ops], o: &SerdeOp, k: usize, log: &mut Log) -> Result<(), V
             }
         }
     }
+    // S5: an integer that does not fit the width must not be accepted as some other value: whenever the
+    // derived `{ bits }` struct of the underlying integer rejects the text, so must the library
+    {
+        let w = l.w;
+        let (hi, lo): (String, String) = if w == 128 {
+            if l.signed {
+                ("170141183460469231731687303715884105728".into(), "-170141183460469231731687303715884105729".into())
+            } else {
+                ("340282366920938463463374607431768211456".into(), "-1".into())
+            }
+        } else if l.signed {
+            ((1i128 << (w - 1)).to_string(), (-(1i128 << (w - 1)) - 1).to_string())
+        } else {
+            ((1u128 << w).to_string(), "-1".into())
+        };
+        let wrapped_hint = bits.to_string();
+        for n in [hi, lo, format!("{}{}", wrapped_hint, "0000000000000000000000000000000000000000")] {
+            for text in [format!("{{\"bits\":{}}}", n), format!("[{}]", n)] {
+                let r = catch_unwind(|| ((s.unjson)(&text, o.wrapping), (s.unjson_twin)(&text)));
+                match r {
+                    Err(p) => return Err(viol("S5", k, &f0, format!("{}: serde_json parse of {:?} unwound: {}", l.name, text, un(p)))),
+                    Ok((x, y)) => {
+                        if y.is_err() && x.is_ok() {
+                            log.ev(ev::CHECK_FAIL, check_no("S5"), k as u64);
+                            return Err(viol("S5", k, &f0, format!("{}: out-of-range {:?} was accepted as {:?}; the one-field integer struct rejects it ({:?})", l.name, text, x, y)));
+                        }
+                    }
+                }
+            }
+        }
+        log.ev(ev::CHECK_OK, check_no("S5"), k as u64);
+    }
     let cb = catch_unwind(|| ((s.cbor)(bits, o.wrapping), (s.cbor_twin)(bits)));
     match cb {
         Err(p) => return Err(viol("S4", k, &f0, format!("{}: serde_cbor serialisation unwound: {}", l.name, un(p)))),
@@ -609,6 +641,7 @@ pub fn read_pass(table: &[Ops], t: &Trace, w: &Written, fault: &Fault, record: b
             }
         }
         let pos_before = inp.pos;
+        let depth_before = inp.depth;
         inp.rl_err_returned = false;
         let out = run_reader(rops.dec, r.shape, reader, &mut inp);
         stats.records_read += 1;
@@ -642,11 +675,17 @@ pub fn read_pass(table: &[Ops], t: &Trace, w: &Written, fault: &Fault, record: b
                     Outcome::Err(m) => violation = Some(viol(id, i, fault, format!("{}: decode failed ({}) although all {} bytes were deliverable", desc(), m, e - s))),
                     Outcome::Panic(m) => violation = Some(viol(id, i, fault, format!("{}: decode unwound: {}", desc(), m))),
                 }
+                if violation.is_none() && matches!(out, Outcome::Ok(_)) && inp.depth != depth_before {
+                    // descend_ref / ascend_ref must balance on success: a level leaked per value makes
+                    // depth-limited decoding (DecodeLimit, 256 for extrinsics) reject long, flat, valid data
+                    violation = Some(viol("D7", i, fault, format!("{}: decode succeeded but left the input's nesting depth at {} (was {}): descend_ref without matching ascend_ref", desc(), inp.depth, depth_before)));
+                }
                 if violation.is_some() {
                     break;
                 }
                 inp.log.ev(ev::CHECK_OK, check_no(id), i as u64);
                 inp.log.ev(ev::CHECK_OK, check_no("D2"), i as u64);
+                inp.log.ev(ev::CHECK_OK, check_no("D7"), i as u64);
                 if t.input != InputMode::plain() {
                     inp.log.ev(ev::CHECK_OK, check_no("D5"), i as u64);
                 }
